@@ -217,9 +217,11 @@ func judgeSide(c Case, side int, b []byte) (map[string]int, []Job, []lib.Bytes, 
 					n += r.Open
 				}
 				g["html.css"] += b2i(n > 0)
+				g["#html.css"]++
 			case "json":
 				if len(bytes.TrimSpace(p.Text)) > 0 {
 					g["html.json"] += b2i(!judge.JSONValid(p.Text))
+					g["#html.json"]++
 				}
 			}
 		}
@@ -267,8 +269,14 @@ func runCase(c Case, outdir string) (Event, []Job) {
 	}
 	sort.Strings(names)
 	for _, k := range names {
-		if k == "html.scripts" {
+		if k == "html.scripts" || k[0] == '#' {
 			continue // information: the number of script elements may legitimately shrink (empty scripts are dropped)
+		}
+		if g1["#"+k] > g0["#"+k] {
+			// the output has MORE parts of this kind than the independent tokenizer finds in the input: the minifier's lexer and the
+			// HTML5 tokenizer disagree about the (malformed) input, e.g. a tag cut off by EOF inside an attribute value is dropped by
+			// the standard but completed by the minifier; the added part has no input counterpart to be judged against
+			continue
 		}
 		ev.Goals = append(ev.Goals, Goal{k, g0[k], g1[k]})
 	}
